@@ -451,6 +451,8 @@ def run(ctx):
     differential(ctx, scs, impl)
     direct_programs(ctx)
     waiter_list_correspondence(ctx, ctx.n(300, 3000))
+    from harness.props import C01
+    C01.kernel_correspondence(ctx, ctx.n(200, 2000))     # order of execution of the bare Loop (both back ends) = kexec
 
 
 def search(ctx):
@@ -461,6 +463,9 @@ def search(ctx):
 
 def replay(ctx, rp):
     case = rp.get('case') or {}
+    if isinstance(case, dict) and 'script' in case:
+        from harness.props import C01
+        return C01.replay(ctx, rp)
     sc = case.get('scenario', case)
     if 'roots' not in sc:
         print('no scenario in replay file')
